@@ -1,1 +1,42 @@
-(* Proofs/GenC12Proofs.v - placeholder *)
+(** Proofs/GenC12Proofs.v — Tie B for C12: the table transfer point -> copy discipline that
+    tools/py2coq_c12.py regenerates from the CURRENT source (Gen/GenC12.v, [gen_transfer]) is the
+    table Model/Alias.v assumes ([model_discipline]); hence the machine built from the source's
+    table IS the model's [step], and the C12 invariant holds for it.  Removing a copy.deepcopy /
+    list(..) / formatting at any transfer point changes [gen_transfer] and breaks these proofs. *)
+From Coq Require Import List String.
+From PV Require Import Alias AliasProofs GenC12.
+Import ListNotations.
+
+(* for ALL transfer points *)
+Lemma gen_transfer_is_model : forall tp, gen_transfer tp = model_discipline tp.
+Proof. intros []; reflexivity. Qed.
+
+(* no transfer point of the source hands over the shared object itself *)
+Lemma gen_no_byref : forall tp, gen_transfer tp <> ByRef.
+Proof. intros [] H; discriminate H. Qed.
+
+(* the machine built from the generated table is the model's machine, for all states and operations *)
+Lemma gen_machine_is_model : forall dh p o, step_of gen_transfer dh p o = step dh p o.
+Proof. intros dh p o. unfold step. apply step_of_ext. exact gen_transfer_is_model. Qed.
+
+(* ... and, independently of the hand-written table, it never writes the definition heap: *)
+Lemma gen_machine_read_only : forall ops dh p, pinv [] p -> read_only (step_of gen_transfer) dh p ops.
+Proof.
+  induction ops as [|o r IH]; intros dh p Hp; cbn; [exact I|].
+  destruct (step_of gen_transfer dh p o) as [dh1 p1] eqn:Es.
+  destruct (step_of_ok gen_transfer gen_no_byref _ _ _ _ _ Es Hp) as [A B].
+  cbn. split; [assumption|]. apply IH. assumption.
+Qed.
+
+Lemma gen_machine_run_unchanged : forall dh r,
+  fst (exec (step_of gen_transfer) dh (start r) (r_ops r)) = dh.
+Proof.
+  intros dh r. apply read_only_exec. apply gen_machine_read_only. apply start_ok.
+Qed.
+
+(* whole runs of the generated machine are the model's runs *)
+Lemma gen_exec_is_model : forall ops dh p, exec (step_of gen_transfer) dh p ops = run dh p ops.
+Proof.
+  induction ops as [|o r IH]; intros dh p; cbn; [reflexivity|].
+  rewrite gen_machine_is_model. destruct (step dh p o) as [dh1 p1]. apply IH.
+Qed.
